@@ -7,8 +7,8 @@ CONSTANTS
   Table = "GSUB"
   MaxL = 1
   TwoSubs = FALSE
-SPECIFICATION MSpec
-CONSTRAINTS Bounded
-INVARIANTS ReturnImpliesValid RaiseOnlyWhenStuck NoCrash
-PROPERTIES DenotationPreserved Progress Terminates
-CHECK_DEADLOCK FALSE
+INIT MInit
+NEXT RNext
+INVARIANTS ReturnImpliesValid RaiseOnlyWhenStuck NoCrash TerminatesInv
+PROPERTIES DenotationPreserved Progress
+CHECK_DEADLOCK TRUE
